@@ -104,6 +104,26 @@ func (p *Prog) versionedBatches() []versionedBatch {
 					vb.other = append(vb.other, op)
 				}
 			}
+			// operands of the coder calls that are parameters of the batch function: seen from the writer that called it
+			if ctx != nil {
+				up := func(v ssa.Value) ssa.Value {
+					if prm, ok := p.resolveDeep(v).(*ssa.Parameter); ok && prm.Parent() == b.Fn && ctx.Common().StaticCallee() == b.Fn {
+						if i := paramIndex(prm); i < len(ctx.Common().Args) {
+							return ctx.Common().Args[i]
+						}
+					}
+					return v
+				}
+				if vb.pk.Rev != nil {
+					vb.pk.Rev = up(vb.pk.Rev)
+				}
+				if vb.pk.RawKey != nil {
+					vb.pk.RawKey = up(vb.pk.RawKey)
+				}
+				if vb.ck.RawKey != nil {
+					vb.ck.RawKey = up(vb.ck.RawKey)
+				}
+			}
 			out = append(out, *vb)
 		}
 	}
@@ -472,9 +492,16 @@ func checkExpectedProvenance(p *Prog, r *Roles, ts *tombstoneRole, a *allocInfo,
 	if rb, ok := p.revisionBytesOf(old); ok {
 		// (the encoded revision may be a parameter of a batch helper: seen from the writer that calls it)
 		rev := p.resolveDeep(rb.Rev)
-		if prm, ok := rev.(*ssa.Parameter); ok && vb.ctx != nil && vb.ctx.Common().StaticCallee() == prm.Parent() {
-			if i := paramIndex(prm); i < len(vb.ctx.Common().Args) {
-				rev = p.resolveDeep(vb.ctx.Common().Args[i])
+		if prm, ok := rev.(*ssa.Parameter); ok && prm.Parent() == vb.b.Fn && vb.ctx != nil && len(fn.Params) > 0 {
+			// the expectation is handed to the batch function by its caller: seen from that writer, if it is one of
+			// the writer's own parameters there; otherwise it stays the batch function's parameter
+			if i := paramIndex(prm); vb.ctx.Common().StaticCallee() == prm.Parent() && i < len(vb.ctx.Common().Args) {
+				if up, ok := p.resolveDeep(vb.ctx.Common().Args[i]).(*ssa.Parameter); ok && up.Parent() == fn {
+					rev = up
+				} else if _, isRevBytesParam := p.resolveDeep(vb.cond.Old).(*ssa.Parameter); !isRevBytesParam {
+					res.ok("C01-R3", construct, pos, fmt.Sprintf("encodes parameter %q of %s (the caller's expected revision)", prm.Name(), funcName(prm.Parent())))
+					return
+				}
 			}
 		}
 		switch x := rev.(type) {
